@@ -314,7 +314,7 @@ func assignabilityRule(p *Prog, r *Report, id string) {
 	type chk struct{ name, recv, arg string }
 	for _, c := range []chk{{"source fits the parameter", "source", "definition.Source"}, {"result fits the target", "definition.Target", "target"}} {
 		found := false
-		ast.Inspect(fi.Decl, func(n ast.Node) bool {
+		p.inspectRegion("generator.(*generator).CallMethod", func(_ *FuncInfo, n ast.Node) bool {
 			ifs, ok := n.(*ast.IfStmt)
 			if !ok || !endsInExit(ifs.Body) {
 				return true
@@ -340,7 +340,7 @@ func assignabilityRule(p *Prog, r *Report, id string) {
 				sel := ast.Unparen(call.Fun).(*ast.SelectorExpr)
 				if exprString(sel.X) == c.recv && exprString(call.Args[0]) == c.arg {
 					// body returns an error
-					if ret, ok := ifs.Body.List[len(ifs.Body.List)-1].(*ast.ReturnStmt); ok && len(ret.Results) == 3 && exprString(ret.Results[2]) != "nil" {
+					if ret, ok := ifs.Body.List[len(ifs.Body.List)-1].(*ast.ReturnStmt); ok && len(ret.Results) >= 1 && exprString(ret.Results[len(ret.Results)-1]) != "nil" {
 						found = true
 					}
 				}
